@@ -91,6 +91,11 @@ PendingRerun(withCtx) ==
 \* whose callback was overtaken by a RestartRoutine still restarts the routine once the restarted
 \* instance has exited -- even successfully): it depends on the schedule, which C14 does not
 \* quantify over; the weaker reading is taken.
+\* some recorded run of this routine/state returned an error at least one backoff interval ago: a
+\* later entry is attributable to the backoff retry even if it was deferred (e.g. the retry fired,
+\* ClearContext cancelled the restarted instance before it entered, a later SetContext ran it)
+BackoffElapsed(key) == \E j \in Insts : inst[j].key = key /\ ~inst[j].act /\ inst[j].out = "err" /\ now >= inst[j].ltime + 10
+
 RetryDueNow(key) ==
     \E j \in Insts : inst[j].key = key /\ ~inst[j].act /\ inst[j].out = "err"
                       /\ now - 7 < inst[j].ltime + 10 /\ inst[j].ltime + 10 <= now
@@ -209,7 +214,7 @@ PEnter(i, tag, key, dead) ==
          \* C14: an errored routine is re-run only by RestartRoutine, SetContext(restart), a new
          \* routine/state or (with retry) after a backoff interval
          \cup (IF ~td /\ ~cfg.burst /\ ~dead /\ prev # 0 /\ inst[prev].out = "err" /\ creditR < inst[prev].eclk /\ ~PendingRerun(TRUE)
-                  /\ ~(cfg.retry /\ RetryDueNow(key))
+                  /\ ~(cfg.retry /\ BackoffElapsed(key))
                THEN {"RerunAfterError"} ELSE {})
          \* C14 "and by nothing else": the routine is entered again although the latest instance
          \* entered in the present epoch (no superseding call returned since), no call that may
@@ -285,6 +290,10 @@ QuietBad(live, active, blk, gstate) ==
     \cup (IF \E i \in live : prt # 0 /\ inst[i].key # prt THEN {"LiveStale"} ELSE {})
     \cup (IF gstate >= 0 /\ gstate # prt THEN {"StateLost"} ELSE {})
     \cup (IF active # Active \/ ~(live \subseteq active) THEN {"Harness"} ELSE {})
+    \* C14 "by nothing else": the current instance (no superseding call returned since it entered, nothing
+    \* entered after it) is inside the function with a cancelled context although the container has a
+    \* context: something other than an API call took it down (first half of an illegitimate re-run)
+    \cup (IF \E i \in active \ live : IsCurrent(i) /\ pctx # 0 THEN {"CancelNoCause"} ELSE {})
     \* C14 liveness, only while nothing is inside the function
     \cup (IF needEnter # 0 /\ active = {} /\ pctx # 0 /\ prt # 0 THEN {"RestartLost"} ELSE {})
     \cup (IF cfg.retry /\ curLeft /\ inst[L].out = "err" /\ active = {} /\ pctx # 0 /\ prt # 0
@@ -307,6 +316,14 @@ BurstQuietBad(live, active, gstate) ==
     \cup (IF \E i \in live : gstate > 0 /\ inst[i].key # gstate THEN {"LiveStale"} ELSE {})
     \cup (IF active # Active \/ ~(live \subseteq active) THEN {"Harness"} ELSE {})
 
+\* Observation after a controller step that is not a quiescent point (M1 only): instances inside the
+\* function / with a live context.  A call's critical section and its return are one step, so no
+\* superseding call can be half done here.
+PCState(live, active) ==
+    /\ bad' = bad \cup (IF ~td /\ ~cfg.burst /\ \E i \in active \ live : IsCurrent(i) /\ pctx # 0 THEN {"CancelNoCause"} ELSE {})
+    /\ Tick
+    /\ UNCHANGED <<cfg, now, pctx, prt, epoch, inst, calls, snapw, chs, credit, creditR, needEnter, ctxTouch, status, cbseen, boReset, boStop, td>>
+
 PQuiet(live, active, blk, gstate) ==
     /\ bad' = bad \cup (IF td THEN {} ELSE IF cfg.burst THEN BurstQuietBad(live, active, gstate) ELSE QuietBad(live, active, blk, gstate))
     /\ Tick
@@ -322,7 +339,7 @@ Violated == (IF NoOverlap THEN {} ELSE {"Overlap"}) \cup bad
 
 C04Names == {"Overlap", "ChEarly"}
 C05Names == {"NotCancelled", "LiveMany", "LiveOrphan", "LiveStaleCtx", "LiveStale", "StateLost"}
-C14Names == {"RerunAfterSuccess", "RerunAfterError", "RerunNoCause", "RestartLost", "RetryLost", "BackoffNotReset",
+C14Names == {"RerunAfterSuccess", "RerunAfterError", "RerunNoCause", "CancelNoCause", "RestartLost", "RetryLost", "BackoffNotReset",
              "WaitWrong", "WaitStuck", "ExitCbDup", "ExitCbFabricated", "ExitCbWrongErr", "ExitCbMissing"}
 Safe_C04 == NoOverlap /\ bad \cap C04Names = {}
 Safe_C05 == bad \cap C05Names = {}
